@@ -94,7 +94,8 @@ func loadProgram(repo string, ov map[string][]byte, pkgDirs []string) (*ssa.Prog
 	cfg := &packages.Config{
 		Mode:    packages.LoadAllSyntax,
 		Dir:     repo,
-		Overlay: ov,
+		Overlay:    ov,
+		BuildFlags: []string{"-tags=verif"},
 		Env:     append(os.Environ(), "GOFLAGS=-mod=mod", "GOPROXY=off", "GOSUMDB=off", "GOTOOLCHAIN=local", "CGO_ENABLED=0"),
 	}
 	var pats []string
@@ -779,7 +780,7 @@ func TestVerifReplay(t *testing.T) {
 	ovj, _ := json.Marshal(map[string]interface{}{"Replace": paths})
 	ovFile := filepath.Join(tmp, "overlay.json")
 	os.WriteFile(ovFile, ovj, 0o644)
-	cmd := exec.Command("timeout", "300", "go", "test", "-vet=off", "-count=1", "-overlay", ovFile, "-run", "^TestVerifReplay$", "./"+pkgDir)
+	cmd := exec.Command("timeout", "300", "go", "test", "-tags", "verif", "-vet=off", "-count=1", "-overlay", ovFile, "-run", "^TestVerifReplay$", "./"+pkgDir)
 	cmd.Dir = repo
 	cmd.Env = append(os.Environ(), "GOFLAGS=-mod=mod", "GOPROXY=off", "GOSUMDB=off", "GOTOOLCHAIN=local", "VERIF_REPLAY="+replayPath)
 	outb, err := cmd.CombinedOutput()
@@ -843,7 +844,7 @@ func nativeWitness(repo, prop string, hfs []harnessFile, pkgDir string, harnesse
 	ovj, _ := json.Marshal(map[string]interface{}{"Replace": paths})
 	ovFile := filepath.Join(tmp, "overlay.json")
 	os.WriteFile(ovFile, ovj, 0o644)
-	cmd := exec.Command("timeout", "600", "go", "test", "-vet=off", "-count=1", "-v", "-overlay", ovFile, "-run", "^TestVerifWitness$", "./"+pkgDir)
+	cmd := exec.Command("timeout", "600", "go", "test", "-tags", "verif", "-vet=off", "-count=1", "-v", "-overlay", ovFile, "-run", "^TestVerifWitness$", "./"+pkgDir)
 	cmd.Dir = repo
 	cmd.Env = append(os.Environ(), "GOFLAGS=-mod=mod", "GOPROXY=off", "GOSUMDB=off", "GOTOOLCHAIN=local")
 	outb, _ := cmd.CombinedOutput()
